@@ -573,7 +573,7 @@ class PLoad(_Component):
         else:
             p = phase_conf[phase]
 
-        return p / abs(vi[0])
+        return abs(p) / abs(vi[0])
 
     def _solv_outp_volt(self, vi, ii, io, phase, phase_conf={}, pstate={}):
         """Load output voltage is always 0"""
@@ -746,7 +746,7 @@ class RLoad(PLoad):
             pass
         else:
             r = phase_conf[phase]
-        return abs(vi[0]) / r
+        return abs(vi[0]) / abs(r)
 
     def _get_limits(self):
         """Applicable limits"""
